@@ -483,7 +483,7 @@ kll_sketch<T, C, A> kll_sketch<T, C, A>::deserialize(std::istream& is, const Ser
     read(is, levels.data(), sizeof(levels[0]) * num_levels);
   }
   levels[num_levels] = capacity;
-  check_levels(levels, num_levels);
+  check_levels(levels, num_levels, n);
   optional<T> tmp; // space to deserialize min and max
   optional<T> min_item;
   optional<T> max_item;
@@ -569,7 +569,7 @@ kll_sketch<T, C, A> kll_sketch<T, C, A>::deserialize(const void* bytes, size_t s
     ptr += copy_from_mem(ptr, levels.data(), sizeof(levels[0]) * num_levels);
   }
   levels[num_levels] = capacity;
-  check_levels(levels, num_levels);
+  check_levels(levels, num_levels, n);
   optional<T> tmp; // space to deserialize min and max
   optional<T> min_item;
   optional<T> max_item;
@@ -889,7 +889,7 @@ void kll_sketch<T, C, A>::check_preamble_ints(uint8_t preamble_ints, uint8_t fla
 }
 
 template<typename T, typename C, typename A>
-void kll_sketch<T, C, A>::check_levels(const vector_u32& levels, uint8_t num_levels) {
+void kll_sketch<T, C, A>::check_levels(const vector_u32& levels, uint8_t num_levels, uint64_t n) {
   if (num_levels == 0) {
     throw std::invalid_argument("Possible corruption: number of levels must be positive");
   }
@@ -900,6 +900,10 @@ void kll_sketch<T, C, A>::check_levels(const vector_u32& levels, uint8_t num_lev
           + std::to_string(level) + " starts at " + std::to_string(levels[level])
           + ", next boundary " + std::to_string(levels[level + 1]));
     }
+  }
+  // merge() sizes its work arrays from N, so N must agree with what the levels hold
+  if (kll_helper::sum_the_sample_weights(num_levels, levels.data()) != n) {
+    throw std::invalid_argument("Possible corruption: total weight of retained items does not match N");
   }
 }
 
